@@ -61,6 +61,10 @@ type rsPeer struct {
 	SendMax       int    `json:"send_max"` // ADD-PATH send-max towards this peer (0 = off)
 	AddPathRecv   bool   `json:"add_path_recv"`
 	PfxLimit      int    `json:"pfx_limit,omitempty"` // max-prefixes per family (0 = none)
+	// RSClient: the (external) peer is a route-server client: it is sent routes unchanged; Secondary: with the
+	// secondary-route option (the client is offered the best path that is not its own)
+	RSClient  bool `json:"rs_client,omitempty"`
+	Secondary bool `json:"secondary,omitempty"`
 }
 
 type rsGlobal struct {
@@ -95,6 +99,9 @@ func rsApiPeer(g rsGlobal, p *rsPeer) *api.Peer {
 		if g.NoClusterID {
 			ap.RouteReflector.RouteReflectorClusterId = ""
 		}
+	}
+	if p.RSClient {
+		ap.RouteServer = &api.RouteServer{RouteServerClient: true, SecondaryRoute: p.Secondary}
 	}
 	for _, f := range []bgp.Family{bgp.RF_IPv4_UC, bgp.RF_IPv6_UC} {
 		as := &api.AfiSafi{
@@ -475,6 +482,10 @@ func rsExport(g rsGlobal, src *rsPeer, a rsAttrs, dst *rsPeer, v6 bool) (rsAttrs
 				}
 			}
 		}
+	}
+	if dst.RSClient {
+		// "to route-server clients the route is unchanged" (after the two loop rules above)
+		return out, true, ""
 	}
 	localAddr := "192.0.2.254"
 	if v6 {
